@@ -348,9 +348,17 @@ impl Clock {
 		} = &mut self.state
 		{
 			*tick_timer += self.speed.value().as_ticks_per_second() * dt;
-			while *tick_timer >= 1.0 {
-				*tick_timer -= 1.0;
-				*ticks += 1;
+			if *tick_timer >= 1.0 {
+				// take all whole ticks in one step: the speed is an arbitrary
+				// number (a tween between units can even pass through
+				// "0 seconds per tick"), and this runs on the audio thread
+				let whole_ticks = tick_timer.floor();
+				*ticks = ticks.saturating_add(whole_ticks as u64);
+				*tick_timer = if whole_ticks.is_finite() {
+					*tick_timer - whole_ticks
+				} else {
+					0.0
+				};
 				new_tick_count = Some(*ticks);
 			}
 		} else {
